@@ -847,3 +847,183 @@ def no_jump_out_of_finally_rule(chk: Check, rid: str,
                     "is 0".format(type(x).__name__.lower()))
     if n < floor:
         raise AnalysisError("functions examined: {}".format(n))
+
+
+_GENERATOR_METHODS = {"non_merged_items"}
+_CONSUMERS = {"list", "tuple", "sorted", "set", "frozenset", "sum", "any",
+              "all", "min", "max", "enumerate", "dict", "len", "zip", "map",
+              "filter", "reversed", "next", "deque"}
+
+
+def _generator_names(prog, fi):
+    """Locals of ``fi`` bound to a generator object (a call of a generator
+    function of the program, of a known generator method, or a generator
+    expression)."""
+    from sa.model import resolve_call, walk_local
+    out = {}
+    for a in walk_local(fi.node):
+        if not (isinstance(a, ast.Assign) and len(a.targets) == 1 and
+                isinstance(a.targets[0], ast.Name)):
+            continue
+        v = a.value
+        gen = False
+        if isinstance(v, ast.GeneratorExp):
+            gen = True
+        elif isinstance(v, ast.Call):
+            if isinstance(v.func, ast.Attribute) and \
+                    v.func.attr in _GENERATOR_METHODS:
+                gen = True
+            else:
+                try:
+                    cands = resolve_call(prog, fi, v)
+                except Exception:  # pylint: disable=broad-except
+                    cands = []
+                if cands and all(any(isinstance(y, (ast.Yield, ast.YieldFrom))
+                                     for y in walk_local(c.node))
+                                 for c in cands):
+                    gen = True
+        if gen:
+            out.setdefault(a.targets[0].id, []).append(a)
+    return out
+
+
+def _consumptions(fi, name):
+    from sa.model import parent, walk_local
+    uses = []
+    for n in walk_local(fi.node):
+        if not (isinstance(n, ast.Name) and n.id == name and
+                isinstance(n.ctx, ast.Load)):
+            continue
+        p_ = parent(n)
+        if isinstance(p_, (ast.For, ast.comprehension)) and p_.iter is n:
+            uses.append(n)
+        elif isinstance(p_, ast.Call) and n in p_.args and \
+                isinstance(p_.func, ast.Name) and p_.func.id in _CONSUMERS:
+            uses.append(n)
+        elif isinstance(p_, ast.Starred):
+            uses.append(n)
+        elif isinstance(p_, ast.YieldFrom):
+            uses.append(n)
+    return uses
+
+
+def single_consumption_rule(chk: Check, rid: str, relpaths: Iterable[str],
+                            floor: int) -> None:
+    """A generator can be walked once.  A second consumer -- typically a
+    `len(list(gen))` or `list(gen)` slipped into a log statement -- leaves
+    nothing for the loop that does the work: it runs zero times, silently.
+    (`.format()` arguments are evaluated even when the debug level is
+    off.)"""
+    from sa.model import ancestors, set_parents, walk_local
+    prog = chk.prog
+    chk.rule(rid, "a local bound to a generator is consumed at most once on "
+             "any path (for / list() / len(list()) / sorted() ...)",
+             floor=floor)
+    n = 0
+    for rel in relpaths:
+        for fi in prog.funcs_in(rel):
+            n += 1
+            gens = _generator_names(prog, fi)
+            bad = []
+            for name, defs in gens.items():
+                uses = sorted(_consumptions(fi, name),
+                              key=lambda u: (u.lineno, u.col_offset))
+                for i, u1 in enumerate(uses):
+                    for u2 in uses[i + 1:]:
+                        # a re-binding between the two gives a new object
+                        if any(u1.lineno < d.lineno <= u2.lineno and
+                               not _exclusive(d, u1) for d in defs) or any(
+                                isinstance(x, ast.Name) and x.id == name and
+                                isinstance(x.ctx, ast.Store) and
+                                u1.lineno < x.lineno <= u2.lineno
+                                for x in walk_local(fi.node)):
+                            continue
+                        if _exclusive(u1, u2):
+                            continue
+                        bad.append((name, u1, u2))
+            if not bad:
+                chk.ok(rid, fi, fi.node, "{}: {} generator local(s)".format(
+                    fi.short, len(gens)), "each consumed at most once",
+                    bool(gens))
+            for name, u1, u2 in bad[:1]:
+                chk.fail(rid, fi, u2, "{}: `{}` consumed at lines {} and {}"
+                         .format(fi.short, name, u1.lineno, u2.lineno),
+                         "`{}` is a generator: the first consumer (line {}) "
+                         "exhausts it, so the second (line {}) sees nothing "
+                         "-- the loop that was to handle the items runs "
+                         "zero times and the run still ends normally".format(
+                             name, u1.lineno, u2.lineno))
+    if n < floor:
+        raise AnalysisError("functions examined: {}".format(n))
+
+
+def _exclusive(a, b) -> bool:
+    """a and b sit in different arms of one if statement."""
+    from sa.model import ancestors, parent
+    def arms(x):
+        out = {}
+        child = x
+        for anc in ancestors(x):
+            if isinstance(anc, ast.If):
+                if any(child is s or _contains(s, child) for s in anc.body):
+                    out[id(anc)] = "body"
+                elif any(child is s or _contains(s, child)
+                         for s in anc.orelse):
+                    out[id(anc)] = "orelse"
+            child = anc
+        return out
+    aa, ab = arms(a), arms(b)
+    return any(k in ab and ab[k] != v for k, v in aa.items())
+
+
+def _contains(root, node) -> bool:
+    return any(x is node for x in ast.walk(root))
+
+
+def config_parser_read_only_rule(chk: Check, rid: str, floor: int) -> None:
+    """One MergerConfig / DifferConfig object serves a whole run: its
+    `prepare()` is called for every document (pair), each time reading the
+    same parsed configuration file.  That ConfigParser is filled once, by
+    the loader; afterwards it is only read.  An entry removed "because it
+    matched nothing in this document" is gone for every later document of
+    the run, which is then merged or compared with the default policy."""
+    from sa.model import walk_local
+    prog = chk.prog
+    chk.rule(rid, "the ConfigParser of the configuration classes is changed "
+             "only by their loader (no remove_option / set / clear ... on "
+             "it from prepare() and its helpers)", floor=floor)
+    mutators = {"remove_option", "remove_section", "set", "add_section",
+                "clear", "pop", "popitem", "update", "read_dict",
+                "read_string", "setdefault", "__setitem__", "__delitem__"}
+    n = 0
+    for cls in ("MergerConfig", "DifferConfig"):
+        ci = prog.class_by_name(cls)
+        for m in ci.methods.values():
+            n += 1
+            bad = []
+            if m.node.name != "_load_config":
+                for c in walk_local(m.node):
+                    if isinstance(c, ast.Call) and \
+                            isinstance(c.func, ast.Attribute) and \
+                            c.func.attr in mutators and \
+                            src(c.func.value) in ("self.config", "config"):
+                        bad.append(c)
+                    elif isinstance(c, (ast.Delete, ast.Assign)):
+                        tg = c.targets
+                        for t in tg:
+                            if isinstance(t, ast.Subscript) and \
+                                    src(t.value).startswith("self.config"):
+                                bad.append(c)
+            if bad:
+                chk.fail(rid, m, bad[0], "{}.{}: `{}`".format(
+                    cls, m.node.name, src(bad[0])[:50]),
+                    "the shared configuration is edited while a document "
+                    "is being prepared: the change outlives this document, "
+                    "so a rule that did not apply to an earlier document of "
+                    "the stream is missing for a later one that it does "
+                    "apply to")
+            else:
+                chk.ok(rid, m, m.node, "{}.{}".format(cls, m.node.name),
+                       "reads only", False)
+    if n < floor:
+        raise AnalysisError("configuration methods examined: {}".format(n))
